@@ -874,3 +874,98 @@ def rule_pure_lattice(ctx, rep):
             rep.check(not mp, rule, f"{m.split('.')[-1]}:{q}", f"{ctx.path(m)}:{fn.lineno}", {params[k]: v for k, v in mp.items() if k < len(params)}, "no parameter mutated",
                       why="operands are live entries of the analysis tables (or lists owned by the caller)")
     rep.require(n >= 20, f"only {n} lattice/condition functions found")
+
+
+# ---------------------------------------------------------------------------------------------- renderers do not edit what they render (C14)
+
+RENDER_FIXTURE = '''
+def _render(bb, config):
+    comments = bb.tealer_comments
+    comments += config.extra(bb)
+    cost = bb.cost
+    cost += 1
+    rows = []
+    rows.append(cost)
+    return comments
+'''
+
+
+def _container_attrs(trees):
+    """names of attributes / properties of repository classes that are declared as lists, dictionaries or sets"""
+    out = set()
+    for tree in trees.values():
+        for n in ast.walk(tree):
+            ann, name = None, None
+            if isinstance(n, ast.FunctionDef) and n.returns is not None and any(
+                    (isinstance(d, ast.Name) and d.id == "property") for d in n.decorator_list):
+                ann, name = n.returns, n.name
+            elif isinstance(n, ast.AnnAssign) and isinstance(n.target, ast.Attribute) and isinstance(n.target.value, ast.Name) and n.target.value.id == "self":
+                ann, name = n.annotation, n.target.attr.lstrip("_")
+            if ann is None:
+                continue
+            text = ast.unparse(ann).strip("\"'")
+            if text.split("[")[0].split(".")[-1] in ("List", "Dict", "Set", "list", "dict", "set", "DefaultDict", "defaultdict"):
+                out.add(name)
+    return out
+
+
+def _render_mutations(fn, containers):
+    """in-place changes of a container that `fn` reaches through an attribute of an object it was given (not of self)"""
+    def root(e):
+        while isinstance(e, (ast.Attribute, ast.Subscript)):
+            e = e.value
+        return e.id if isinstance(e, ast.Name) else None
+    fresh_locals = {t.id for n in ast.walk(fn) if isinstance(n, ast.Assign) and isinstance(n.value, (ast.Call, ast.List, ast.Dict, ast.Set, ast.ListComp))
+                    for t in n.targets if isinstance(t, ast.Name)}
+    alias = {}
+    for n in ast.walk(fn):
+        pairs = [(t, n.value) for t in n.targets] if isinstance(n, ast.Assign) else [(n.target, n.value)] if isinstance(n, ast.AnnAssign) and n.value is not None else []
+        for t, v in pairs:
+            if isinstance(t, ast.Name) and isinstance(v, ast.Attribute) and v.attr.lstrip("_") in containers and root(v) not in ("self", "cls", None):
+                alias[t.id] = ast.unparse(v)
+
+    def given(e):
+        """the container expression `e` belongs to an object the function did not create"""
+        if isinstance(e, ast.Name):
+            return alias.get(e.id)
+        if isinstance(e, ast.Attribute) and e.attr.lstrip("_") in containers and root(e) not in ("self", "cls", None) and root(e) not in fresh_locals:
+            return ast.unparse(e)
+        return None
+    out = []
+    for n in ast.walk(fn):
+        recv, what = None, None
+        if isinstance(n, ast.Call) and isinstance(n.func, ast.Attribute) and n.func.attr in MUTATORS:
+            recv, what = n.func.value, f".{n.func.attr}(...)"
+        elif isinstance(n, ast.AugAssign):
+            recv, what = (n.target.value, "[...] op=") if isinstance(n.target, ast.Subscript) else (n.target, "op= (in place for lists, sets and dictionaries)")
+        elif isinstance(n, (ast.Assign, ast.Delete)):
+            for t in n.targets:
+                if isinstance(t, ast.Subscript):
+                    recv, what = t.value, "[...] = / del"
+        if recv is not None and given(recv):
+            out.append((n.lineno, given(recv), what))
+    return out
+
+
+def rule_renderers_pure(ctx, rep):
+    rule = "E-PURE(export)"
+    rep.rule(rule, "the functions that render results (tealer.utils.output, tealer.printers.*) do not change in place a list, dictionary or set that they "
+                   "reach through an attribute of a block, instruction, contract or configuration they were given - directly or through a local name "
+                   "bound to it: what one export shows must not depend on the exports made before it in the same process")
+    containers = _container_attrs(ctx.trees)
+    rep.require({"tealer_comments", "instructions", "next", "prev"} <= containers, f"container attributes of the block classes not found: {sorted(containers)[:8]}")
+    fix = _render_mutations(ast.parse(RENDER_FIXTURE).body[0], containers)
+    rep.require(len(fix) == 1 and fix[0][1] == "bb.tealer_comments", f"{rule}: the positive fixture gives {fix}")
+    n = 0
+    for modname, tree in sorted(ctx.trees.items()):
+        if not (modname == "tealer.utils.output" or modname.startswith("tealer.printers")):
+            continue
+        for fn in [x for x in ast.walk(tree) if isinstance(x, ast.FunctionDef)]:
+            n += 1
+            found = _render_mutations(fn, containers)
+            rep.check(not found, rule, f"{modname.split('.', 1)[1]}:{fn.name}", f"{ctx.path(modname)}:{found[0][0] if found else fn.lineno}",
+                      [f"{w} {what}" for _, w, what in found], "no container of a rendered object changed in place",
+                      why="the rendered object keeps the change: the next export of the same contract in this process shows it",
+                      sample={"function": fn.name})
+    rep.count("rendering functions analysed", n)
+    rep.require(n >= 30, f"only {n} rendering functions found")
